@@ -364,6 +364,19 @@ example : AdmissibleDet Sqlite.view Sqlite.step .sqlite Sqlite.exS
   have e2 := List.mem_singleton.mp ht'.1
   rw [e1, e2]
 
+/-- why `replaceLast_hits_limit1_sqlite` carries `0 ≤ t.ts + t.dur`: Sqlite's unbounded read adds
+    `endtime >= 0`, so an event that ends before the epoch is stored (and is what replace-last
+    rewrites) but is not returned by the limit-1 read -/
+example : Sqlite.Inv Sqlite.cexLast ∧
+    Sqlite.view Sqlite.cexLast "a" = some (default, [{ id := some 1, ts := -10, dur := 5, data := () }]) ∧
+    Sqlite.getEvents Sqlite.cexLast "a" 1 none none = [] :=
+  ⟨Sqlite.cexLast_inv, Sqlite.replaceLast_read_counterexample⟩
+
+/-- why `Pre` asks that ids carried into insert-many are live: in the memory backend a batch
+    `[new, carrying id 0]` into an empty bucket gives the new event id 0 and then overwrites it -/
+example : Memory.insertMany Memory.cexSt "b" [Memory.cexNew, Memory.cexCarry] =
+    .ok [("b", (Memory.storedMeta "b" Memory.cexMeta, [⟨some 0, 0, 0, 2⟩]))] := rfl
+
 example := replaceLast_hits_limit1_sqlite Sqlite.exS_inv (b := "a") rfl (by decide) none Sqlite.exEv
 example := delete_exact_sqlite Sqlite.exS_inv (b := "a") rfl 3
 example := replaceLast_hits_limit1_memory Memory.exSt_inv (b := "b") rfl (by decide) none ⟨none, 9, 9, 9⟩
